@@ -69,6 +69,13 @@ _TS = _re0.compile(r"^(\d{4}-\d{2}-\d{2}T\d{2}:\d{2}:\d{2})(?:\.(\d+))?Z$")
 FRACS = ["", ".0", ".5", ".12", ".123", ".1230", ".123456", ".000001", ".999999", ".100000", ".000"]
 
 
+SOCKET_FAMILIES = ["SO", "ICMP", "ICMP6", "IP", "IPV6", "MCAST", "TCP", "IRLMP"]
+# legal option keys: family prefix, then anything (one, two and more underscores)
+SOCKET_KEYS = ["SO_RCVTIMEO", "SO_REUSE_ADDR", "ICMP_FILTER", "ICMP6_FILTER", "ICMP6_ECHO_REPLY_X", "IP_TTL", "IP_MULTICAST_TTL",
+               "IP_ADD_MEMBERSHIP", "IPV6_V6ONLY", "IPV6_MULTICAST_HOPS", "MCAST_JOIN_GROUP", "MCAST_JOIN_SOURCE_GROUP_X",
+               "TCP_NODELAY", "TCP_KEEP_ALIVE_X", "IRLMP_ENUMDEVICES", "IRLMP_9WIRE_MODE", "SO_", "TCP_a"]
+
+
 def versioned(c):
     """The class carries the common properties created / modified (not the file-system times of the 2.0
     file / directory observables)."""
@@ -799,6 +806,12 @@ def coconstraint_corruptions(gen, cid, o):
         x = dict(o)
         x["options"] = r.choice([{"BAD_KEY": 1}, {"SO_RCVTIMEO": "x"}, {"NOUNDERSCORE": 1}, {"SO_X": 1.5}])
         out.append(("co-constraint", "socket-options", x))
+        # option keys: every family x {no underscore, family name alone, family + one more letter, lower case}
+        for fam in SOCKET_FAMILIES:
+            for key in (fam, fam + "X", fam[:-1] + "_" + fam[-1:] if len(fam) > 2 else fam + "_", fam.lower() + "_x", "X" + fam + "_OPT"):
+                y = dict(o)
+                y["options"] = {key: 1}
+                out.append(("co-constraint", "socket-option-key:" + key, y))
     if n == "ObservedData" and c["ver"] == "2.1":
         x = {k: v for k, v in o.items() if k not in ("objects", "object_refs")}
         out.append(("co-constraint", "neither-objects-nor-refs", x))
